@@ -151,7 +151,7 @@ func (vm *VM) convertPanic(msg any) error {
 			break
 		}
 		fallthrough
-	case OpCallNative:
+	case OpCallNative, OpReturn:
 		switch msg := msg.(type) {
 		case runtimeError:
 			break
